@@ -10,6 +10,7 @@ import (
 	"encoding/hex"
 	"fmt"
 	"math/big"
+	"sort"
 	"strings"
 
 	"com.tuntun.rangers/node/src/consensus/groupsig"
@@ -27,6 +28,42 @@ func zs(b *big.Int) string { return hx.CoqZ(b.String()) }
 func hexs(b []byte) string { return hex.EncodeToString(b) }
 func cp(b []byte) []byte   { return append([]byte{}, b...) }
 func b32(x *big.Int) []byte { return x.FillBytes(make([]byte, 32)) }
+
+// refHashPoint: independent try-and-increment (x = sha256(m) mod p; first x, x+1, ... with x^3+3 a square;
+// y = (x^3+3)^((p+1)/4)), and the number of increments it needed.
+func refHashPoint(m []byte) (*big.Int, *big.Int, int) {
+	h := sha256.Sum256(m)
+	x := new(big.Int).SetBytes(h[:])
+	x.Mod(x, fp)
+	e := new(big.Int).Add(fp, big.NewInt(1))
+	e.Rsh(e, 2)
+	for n := 0; ; n++ {
+		t := new(big.Int).Mul(x, x)
+		t.Mul(t, x)
+		t.Add(t, big.NewInt(3))
+		t.Mod(t, fp)
+		y := new(big.Int).Exp(t, e, fp)
+		if new(big.Int).Mod(new(big.Int).Mul(y, y), fp).Cmp(t) == 0 {
+			return new(big.Int).Mod(x, fp), y, n
+		}
+		x.Add(x, big.NewInt(1))
+	}
+}
+
+// messages whose hash needs many increments (found offline by enumeration; the two with >= 20 are the
+// witnesses of seeded/C14-8)
+var hardMessages = []struct {
+	inc int
+	hex string
+}{
+	{8, "6331342d636f727075732d0000000000000511"}, {9, "6331342d636f727075732d000000000000000d"},
+	{10, "6331342d636f727075732d00000000000023c1"}, {11, "6331342d636f727075732d0000000000001c61"},
+	{12, "6331342d636f727075732d0000000000000339"}, {13, "6331342d636f727075732d0000000000002a0d"},
+	{14, "6331342d636f727075732d0000000000003a78"}, {15, "6331342d636f727075732d0000000000005e5f"},
+	{16, "6331342d636f727075732d0000000000001280"}, {17, "6331342d636f727075732d0000000000061220"},
+	{18, "6331342d636f727075732d000000000006d077"}, {19, "6331342d636f727075732d00000000000554c8"},
+	{-1, "6331342d64656d6f2d00000000000180b2"}, {-1, "6331342d64656d6f2d00000000002427a9"},
+}
 
 func strs(l []*big.Int) []string {
 	p := make([]string, len(l))
@@ -252,6 +289,44 @@ func main() {
 	}
 
 	viol := func(key, what string, in interface{}) { res.Violate(key, what, in) }
+
+	// hash-to-point totality: for EVERY message the harness uses, G1.HashToPoint must return no error and a
+	// valid curve point, equal to the point found by an independent try-and-increment (big.Int); the number of
+	// increments is recorded (distribution in the evidence notes).
+	incHist := map[int]int{}
+	hashSeen := map[string]bool{}
+	hashOK := func(family string, m []byte) {
+		if hashSeen[string(m)] {
+			return
+		}
+		hashSeen[string(m)] = true
+		wx, wy, n := refHashPoint(m)
+		incHist[n]++
+		g := new(bn256.G1)
+		var err error
+		pan := ""
+		func() {
+			defer func() {
+				if r := recover(); r != nil {
+					pan = fmt.Sprint(r)
+				}
+			}()
+			err = g.HashToPoint(m)
+		}()
+		valid := pan == "" && g.IsValid()
+		same := false
+		if pan == "" {
+			func() {
+				defer func() { recover() }()
+				same = bytes.Equal(g.Marshal(), append(b32(wx), b32(wy)...))
+			}()
+		}
+		res.Count(fmt.Sprintf("hash:%s:err=%v,valid=%v,expected-point=%v", family, err != nil || pan != "", valid, same), "hash/"+hexs(m), true)
+		if err != nil || pan != "" || !valid || !same {
+			viol("C14/hash:not-a-curve-point:"+family, "G1.HashToPoint(m) returns an error, an invalid point, or not the try-and-increment point",
+				map[string]interface{}{"msg": hexs(m), "increments_needed": n, "error": fmt.Sprint(err), "panic": pan, "valid": valid, "want": hexs(append(b32(wx), b32(wy)...))})
+		}
+	}
 
 	for inst := 0; inst < nInst; inst++ {
 		skv := randScalar(rng)
@@ -859,6 +934,179 @@ func main() {
 			}
 		}
 
+		// ---- mixed representations: the same group element as a freshly computed (Jacobian) value, as another
+		// Jacobian value reached differently, after MakeAffine (Marshal was called on it), and parsed from bytes
+		// (affine). Sums, doublings, opposite points, key aggregation and the pairing must not depend on it.
+		{
+			hashOK("instance", msg)
+			ka, kb := randScalar(rng), randScalar(rng)
+			for kb.Cmp(ka) == 0 {
+				kb = randScalar(rng)
+			}
+			reps := []string{"fresh", "fresh-other-route", "made-affine", "parsed"}
+			mk1 := func(rep string, k *big.Int) *bn256.G1 {
+				switch rep {
+				case "fresh":
+					return new(bn256.G1).ScalarMult(H, k)
+				case "fresh-other-route": // (k-1)*H + H : another Jacobian triple for the same point
+					km := new(big.Int).Sub(k, big.NewInt(1))
+					km.Mod(km, order)
+					return new(bn256.G1).Add(new(bn256.G1).ScalarMult(H, km), H)
+				case "made-affine":
+					g := new(bn256.G1).ScalarMult(H, k)
+					g.Marshal()
+					return g
+				}
+				return g1(new(bn256.G1).ScalarMult(H, k).Marshal())
+			}
+			want1 := func(k *big.Int) []byte {
+				return new(bn256.G1).ScalarMult(H, new(big.Int).Mod(k, order)).Marshal()
+			}
+			type opcase struct {
+				name   string
+				k1, k2 *big.Int
+				neg2   bool
+				want   []byte
+			}
+			sum := new(big.Int).Add(ka, kb)
+			ops := []opcase{
+				{"P+P", ka, ka, false, want1(new(big.Int).Lsh(ka, 1))},
+				{"P+(-P)", ka, ka, true, make([]byte, 64)},
+				{"P+Q", ka, kb, false, want1(sum)},
+			}
+			nmodel := 0
+			for _, op := range ops {
+				for _, r1 := range reps {
+					for _, r2 := range reps {
+						a1, a2 := mk1(r1, op.k1), mk1(r2, op.k2)
+						if op.neg2 {
+							a2 = new(bn256.G1).Neg(a2)
+						}
+						var got []byte
+						pan := ""
+						func() {
+							defer func() {
+								if r := recover(); r != nil {
+									pan = fmt.Sprint(r)
+								}
+							}()
+							got = new(bn256.G1).Add(a1, a2).Marshal()
+						}()
+						okk := pan == "" && bytes.Equal(got, op.want)
+						res.Count(fmt.Sprintf("rep:G1:%s:%s+%s:ok=%v", op.name, r1, r2, okk), fmt.Sprintf("%d/rep/%s/%s/%s", inst, op.name, r1, r2), true)
+						if !okk {
+							viol("C14/group-law:representation:G1:"+op.name, "G1.Add gives a different group element depending on how its operands are represented ("+r1+" + "+r2+")",
+								map[string]interface{}{"H": hexs(H.Marshal()), "k1": op.k1.String(), "k2": op.k2.String(), "negated_second": op.neg2, "rep1": r1, "rep2": r2,
+									"got": hexs(got), "want": hexs(op.want), "panic": pan})
+						}
+						// the model's affine law on a few of them
+						if inst < 1 && r1 == "parsed" && r2 == "fresh" && pan == "" && nmodel < 3 {
+							nmodel++
+							pa := mk1("parsed", op.k1).Marshal()
+							pb := mk1("parsed", op.k2)
+							if op.neg2 {
+								pb = new(bn256.G1).Neg(pb)
+							}
+							cs.Add(fmt.Sprintf("(AddCase %s %s %s)", hx.CoqHex(pa), hx.CoqHex(pb.Marshal()), hx.CoqHex(got)),
+								map[string]interface{}{"kind": "g1-add", "op": op.name, "a": hexs(pa), "b": hexs(pb.Marshal()), "result": hexs(got)})
+						}
+					}
+				}
+			}
+			// G2 / public keys: aggregation of EQUAL keys in different representations = key of 2*sk
+			two := new(big.Int).Lsh(skv, 1)
+			two.Mod(two, order)
+			wantPk := new(bn256.G2).ScalarBaseMult(two).Marshal()
+			mkpk := func(rep string) groupsig.Pubkey {
+				switch rep {
+				case "fresh":
+					return *groupsig.GeneratePubkey(*sk)
+				case "made-affine":
+					p := groupsig.GeneratePubkey(*sk)
+					p.Serialize()
+					return *p
+				}
+				return groupsig.ByteToPublicKey(groupsig.GeneratePubkey(*sk).Serialize())
+			}
+			for _, r1 := range []string{"fresh", "made-affine", "parsed"} {
+				for _, r2 := range []string{"fresh", "made-affine", "parsed"} {
+					var got []byte
+					pan := ""
+					func() {
+						defer func() {
+							if r := recover(); r != nil {
+								pan = fmt.Sprint(r)
+							}
+						}()
+						got = groupsig.AggregatePubkeys([]groupsig.Pubkey{mkpk(r1), mkpk(r2)}).Serialize()
+					}()
+					okk := pan == "" && bytes.Equal(got, wantPk)
+					res.Count(fmt.Sprintf("rep:G2:aggregate-equal-keys:%s+%s:ok=%v", r1, r2, okk), fmt.Sprintf("%d/rep2/%s/%s", inst, r1, r2), true)
+					if !okk {
+						viol("C14/group-law:representation:G2:aggregate-equal-keys", "AggregatePubkeys of two equal keys ("+r1+", "+r2+") is not the key of 2*sk",
+							map[string]interface{}{"sk": skv.String(), "rep1": r1, "rep2": r2, "got": hexs(got), "want": hexs(wantPk), "panic": pan})
+					}
+				}
+			}
+			// pairing additivity with P' = P in another representation: e(P + P', Q) = e(P, Q)^2
+			if inst < 2 || thorough {
+				for _, r2 := range []string{"fresh-other-route", "parsed"} {
+					P1 := mk1("fresh", ka)
+					lhs := bn256.Pair(new(bn256.G1).Add(P1, mk1(r2, ka)), Q)
+					rhs := new(bn256.GT).ScalarMult(bn256.Pair(mk1("parsed", ka), Q), big.NewInt(2))
+					okk := bn256.PairIsEuqal(lhs, rhs)
+					res.Count(fmt.Sprintf("rep:pairing:e(P+P',Q):fresh+%s:ok=%v", r2, okk), fmt.Sprintf("%d/reppair/%s", inst, r2), true)
+					if !okk {
+						viol("C14/pairing:bilinear", "e(P + P', Q) != e(P, Q)^2 for P' = P in another representation ("+r2+")",
+							map[string]interface{}{"H": hexs(H.Marshal()), "k": ka.String(), "pk": hexs(pkb), "rep2": r2})
+					}
+				}
+			}
+			// secret keys >= r: NewSeckeyFromBigInt reduces; Seckey.Deserialize / SetHexString do not, so Sign and
+			// GeneratePubkey run the double-and-add on the unreduced scalar. Same key pair, same signature.
+			for _, off := range []struct {
+				name string
+				v    *big.Int
+			}{{"r+1", new(big.Int).Add(order, big.NewInt(1))}, {"r+2", new(big.Int).Add(order, big.NewInt(2))},
+				{"2r+1", new(big.Int).Add(new(big.Int).Lsh(order, 1), big.NewInt(1))}, {"sk+r", new(big.Int).Add(skv, order)}} {
+				red := new(big.Int).Mod(off.v, order)
+				skR := groupsig.NewSeckeyFromBigInt(new(big.Int).Set(red))
+				wantSig := groupsig.Sign(*skR, msg).Serialize()
+				wantPk2 := groupsig.GeneratePubkey(*skR).Serialize()
+				for _, via := range []string{"NewSeckeyFromBigInt", "Seckey.Deserialize", "Seckey.SetHexString"} {
+					var sU groupsig.Seckey
+					switch via {
+					case "NewSeckeyFromBigInt":
+						sU = *groupsig.NewSeckeyFromBigInt(new(big.Int).Set(off.v))
+					case "Seckey.Deserialize":
+						sU.Deserialize(off.v.Bytes())
+					default:
+						sU.SetHexString("0x" + off.v.Text(16))
+					}
+					var gs, gp []byte
+					okV := false
+					pan := ""
+					func() {
+						defer func() {
+							if r := recover(); r != nil {
+								pan = fmt.Sprint(r)
+							}
+						}()
+						sg := groupsig.Sign(sU, msg)
+						pU := groupsig.GeneratePubkey(sU)
+						okV = groupsig.VerifySig(*pU, msg, sg)
+						gs, gp = sg.Serialize(), pU.Serialize()
+					}()
+					okk := pan == "" && okV && bytes.Equal(gs, wantSig) && bytes.Equal(gp, wantPk2)
+					res.Count(fmt.Sprintf("unreduced-key:%s:%s:ok=%v", off.name, via, okk), fmt.Sprintf("%d/unred/%s/%s", inst, off.name, via), true)
+					if !okk {
+						viol("C14/reject-honest:unreduced-secret-key:"+off.name, "a secret key >= r (set through "+via+") does not give the key pair / signature of its residue, or its own signature does not verify",
+							map[string]interface{}{"sk": off.v.String(), "via": via, "msg": hexs(msg), "verifies": okV, "sig": hexs(gs), "want_sig": hexs(wantSig), "pk": hexs(gp), "want_pk": hexs(wantPk2), "panic": pan})
+					}
+				}
+			}
+		}
+
 		// ---- message families: a signature must not verify for ANOTHER message, whatever the two messages share
 		// (length classes, a common 32-byte suffix, zero-left-padding, 64-byte point encodings differing in x only),
 		// in both orders, all in this one process; and Sign(sk, m) must be sk * HashToPoint(m) as bn256 computes it
@@ -870,6 +1118,7 @@ func main() {
 				return new(bn256.G1).ScalarMult(Hm, skv).Marshal()
 			}
 			checkSign := func(family string, m []byte) groupsig.Signature {
+				hashOK(family, m)
 				sg := groupsig.Sign(*sk, m)
 				okE := bytes.Equal(sg.Serialize(), expect(m))
 				okV := groupsig.VerifySig(*pk, m, sg)
@@ -1208,6 +1457,75 @@ func main() {
 				viol("C14/pairing:nondegenerate", "e(P, g2) = 1 for P != 0, or e(P,g2)^r != 1", in)
 			}
 		}
+	}
+
+	// ---- corpus of messages whose hash needs many increments (8..19, and the two >= 20): H(m) must be a curve
+	// point (no error), Sign/VerifySig must work for an odd and an even key, the signature must round-trip.
+	{
+		modelDone := false
+		for _, hm := range hardMessages {
+			m, _ := hex.DecodeString(hm.hex)
+			_, _, n := refHashPoint(m)
+			if hm.inc >= 0 && n != hm.inc {
+				res.Note(fmt.Sprintf("corpus message %s: expected %d increments, reference needs %d", hm.hex, hm.inc, n))
+			}
+			hashOK(fmt.Sprintf("corpus-%d-increments", n), m)
+			for _, kv := range []int64{0x1234567, 0x2345678} {
+				skc := groupsig.NewSeckeyFromBigInt(big.NewInt(kv))
+				pkc := groupsig.GeneratePubkey(*skc)
+				var okV, okW, okE bool
+				pan := ""
+				var sb []byte
+				func() {
+					defer func() {
+						if r := recover(); r != nil {
+							pan = fmt.Sprint(r)
+						}
+					}()
+					sg := groupsig.Sign(*skc, m)
+					sb = sg.Serialize()
+					okV = groupsig.VerifySig(*pkc, m, sg)
+					okW = groupsig.VerifySig(*pkc, m, *groupsig.DeserializeSign(sb))
+					wx, wy, _ := refHashPoint(m)
+					okE = bytes.Equal(sb, new(bn256.G1).ScalarMult(g1(append(b32(wx), b32(wy)...)), big.NewInt(kv)).Marshal())
+				}()
+				okk := pan == "" && okV && okW && okE
+				res.Count(fmt.Sprintf("hash-corpus:%d-increments:sign-verify-ok=%v", n, okk), fmt.Sprintf("corpus/%s/%d", hm.hex, kv), true)
+				if !okk {
+					viol("C14/reject-honest:hard-hash-message", "for a message whose hash needs many increments the honest signature is rejected, does not round-trip, or is not sk*H(m)",
+						map[string]interface{}{"msg": hm.hex, "increments_needed": n, "sk": kv, "verifies": okV, "verifies_after_roundtrip": okW, "is_sk_times_H": okE, "sig": hexs(sb), "panic": pan})
+				}
+			}
+			// the model's try-and-increment on one hard message (each increment is a 2.7 s modular square root there)
+			want := 9
+			if thorough {
+				want = 20
+			}
+			if !modelDone && ((n == want) || (thorough && n >= 20)) {
+				modelDone = true
+				func() {
+				defer func() { recover() }()
+				dg := sha256.Sum256(m)
+				Hm := new(bn256.G1)
+				Hm.HashToPoint(m)
+				s2 := groupsig.Sign(*groupsig.NewSeckeyFromBigInt(big.NewInt(2)), m).Serialize()
+				cs.Add(fmt.Sprintf("(HashCase %s %d%%N %s %s %s)", hx.CoqHex(dg[:]), 2, hx.CoqHex(Hm.Marshal()), hx.CoqHex(s2), hx.CoqHex(new(bn256.G1).Neg(g1(s2)).Marshal())),
+					map[string]interface{}{"kind": "hash-and-sign-hard-message", "msg": hm.hex, "increments": n, "sha256": hexs(dg[:]), "H": hexs(Hm.Marshal())})
+				}()
+			}
+		}
+		ks := []int{}
+		for k := range incHist {
+			ks = append(ks, k)
+		}
+		sort.Ints(ks)
+		parts := []string{}
+		tot := 0
+		for _, k := range ks {
+			parts = append(parts, fmt.Sprintf("%d:%d", k, incHist[k]))
+			tot += incHist[k]
+		}
+		res.Note(fmt.Sprintf("hash-to-point increments needed (increments:messages) over the %d distinct messages of this run, corpus included: %s", tot, strings.Join(parts, " ")))
 	}
 
 	res.ModelCases = cs.Total()
